@@ -16,13 +16,32 @@ with the multiplication operator, to construct values such as `11 * e(-21)`.
 """
 
 from enum import Enum
-from decimal import Decimal
+from decimal import Decimal, localcontext
+from functools import wraps
 from typing import Optional, Any, Union, Tuple
 from pydantic import BaseModel, Field
 from pydantic.dataclasses import dataclass
 
 
 EPSILON = 20
+
+# Working precision, in decimal digits, of `Prefixed` arithmetic and comparisons.
+# The default `decimal` context rounds every result to 28 significant digits,
+# fewer than the exact sums, products and rescalings of numbers many prefixes apart require.
+PRECISION = 200
+
+
+def _exact(fn):
+    """Decorator running `fn` in a `decimal` context precise enough for its results to be exact."""
+
+    @wraps(fn)
+    def wrapper(*args, **kwargs):
+        with localcontext() as ctx:
+            ctx.prec = max(ctx.prec, PRECISION)
+            return fn(*args, **kwargs)
+
+    return wrapper
+
 
 
 class Prefix(Enum):
@@ -75,6 +94,7 @@ class Prefix(Enum):
 
         return NotImplemented
 
+    @_exact
     def __rmul__(self, other: Any):
         """Right-hand-side multiplication operator, e.g. `5 * µ`."""
 
@@ -198,15 +218,19 @@ class Prefixed(BaseModel):
     # def __get_validators__(cls):
     #     yield cls.validate
 
+    @_exact
     def __hash__(self):
-        return hash((self.number, self.prefix))
+        # Hash the value, so that equal numbers written with different prefixes hash equally
+        return hash(self.number.scaleb(self.prefix.value))
 
+    @_exact
     def __int__(self) -> int:
-        return int(self.number) * 10**self.prefix.value
+        return int(self.number.scaleb(self.prefix.value))
 
+    @_exact
     def __float__(self) -> float:
         """Convert to float"""
-        return float(self.number) * 10**self.prefix.value
+        return float(self.number.scaleb(self.prefix.value))
 
     def __neg__(self) -> "Prefixed":
         return Prefixed.new(-self.number, self.prefix)
@@ -214,6 +238,7 @@ class Prefixed(BaseModel):
     def __abs__(self) -> "Prefixed":
         return Prefixed.new(abs(self.number), self.prefix)
 
+    @_exact
     def __mul__(self, other) -> "Prefixed":
         if isinstance(other, Prefixed):
             return (self.number * other.number * self.prefix * other.prefix).scale()
@@ -221,6 +246,7 @@ class Prefixed(BaseModel):
             return NotImplemented
         return Prefixed.new(self.number * Decimal(str(other)), self.prefix).scale()
 
+    @_exact
     def __rmul__(self, other) -> "Prefixed":
         if isinstance(other, Prefixed):
             return (self.number * other.number * self.prefix * other.prefix).scale()
@@ -265,6 +291,7 @@ class Prefixed(BaseModel):
             ** (self.number * (10 ** Decimal(str(self.prefix.value))))
         )
 
+    @_exact
     def __add__(self, other: "Prefixed") -> "Prefixed":
         if not isinstance(other, (str, int, float, Decimal, Prefixed)):
             return NotImplemented
@@ -272,6 +299,7 @@ class Prefixed(BaseModel):
             return _add(lhs=self, rhs=Prefixed.new(other))
         return _add(lhs=self, rhs=other).scale()
 
+    @_exact
     def __radd__(self, other: "Prefixed") -> "Prefixed":
         if not isinstance(other, (str, int, float, Decimal, Prefixed)):
             return NotImplemented
@@ -279,6 +307,7 @@ class Prefixed(BaseModel):
             return _add(lhs=self, rhs=Prefixed.new(other))
         return _add(lhs=self, rhs=other).scale()
 
+    @_exact
     def __sub__(self, other: "Prefixed") -> "Prefixed":
         if not isinstance(other, (str, int, float, Decimal, Prefixed)):
             return NotImplemented
@@ -286,6 +315,7 @@ class Prefixed(BaseModel):
             return _subtract(lhs=self, rhs=Prefixed.new(other))
         return _subtract(lhs=self, rhs=other).scale()
 
+    @_exact
     def __rsub__(self, other: "Prefixed") -> "Prefixed":
         if not isinstance(other, (str, int, float, Decimal, Prefixed)):
             return NotImplemented
@@ -293,6 +323,7 @@ class Prefixed(BaseModel):
             return _subtract(lhs=Prefixed.new(other), rhs=self)
         return _subtract(lhs=other, rhs=self).scale()
 
+    @_exact
     def scale(self, prefix: Prefix = None) -> "Prefixed":
         """Scale to a new `Prefix`"""
         if isinstance(prefix, Prefix):
@@ -309,26 +340,32 @@ class Prefixed(BaseModel):
         return f"{self.number}*{self.prefix.name}"
 
     # Comparison operators that respect class convention
+    @_exact
     def __lt__(self, other) -> bool:
         lhs, rhs = _scale_to_smaller(self, other)
         return round(lhs.number, EPSILON) < round(rhs.number, EPSILON)
 
+    @_exact
     def __le__(self, other) -> bool:
         lhs, rhs = _scale_to_smaller(self, other)
         return round(lhs.number, EPSILON) <= round(rhs.number, EPSILON)
 
+    @_exact
     def __eq__(self, other) -> bool:
         lhs, rhs = _scale_to_smaller(self, other)
         return round(lhs.number, EPSILON) == round(rhs.number, EPSILON)
 
+    @_exact
     def __ne__(self, other) -> bool:
         lhs, rhs = _scale_to_smaller(self, other)
         return round(lhs.number, EPSILON) != round(rhs.number, EPSILON)
 
+    @_exact
     def __gt__(self, other) -> bool:
         lhs, rhs = _scale_to_smaller(self, other)
         return round(lhs.number, EPSILON) > round(rhs.number, EPSILON)
 
+    @_exact
     def __ge__(self, other) -> bool:
         lhs, rhs = _scale_to_smaller(self, other)
         return round(lhs.number, EPSILON) >= round(rhs.number, EPSILON)
